@@ -122,11 +122,11 @@ def handleMapper : List Sx → Option String
     let relabel ← match mode with
       | .atom "id" => some relabelId
       | .list [.atom "tag", .atom kind, .atom t] =>
-        some fun nd => (nd.kind,
-          if nd.kind == kind && !nd.tags.contains t then nd.tags ++ [t] else nd.tags)
+        some (relabelWith fun nd => (nd.kind,
+          if nd.kind == kind && !nd.tags.contains t then nd.tags ++ [t] else nd.tags))
       | .list [.atom "untag", .atom t] =>
         -- make nodes equal by dropping a tag (creates duplicates to be merged)
-        some fun nd => (nd.kind, nd.tags.filter (· != t))
+        some (relabelWith fun nd => (nd.kind, nd.tags.filter (· != t)))
       | _ => none
     let st := runTransform s relabel h r
     let img := (visitLog s h r).map fun i => match st.image i with
